@@ -8,11 +8,16 @@ Two op streams (a case starts with `reset`):
   `q x= y= z= r=`; all numbers are (possibly negative) integers counting quarter
   units, small enough that float32 computes zone indices and the `dist > r` test
   exactly, so the model must reproduce the implementation's observation verbatim.
-  Observation of a query: `z=<ids> b=<ids>` (zoned result / `SimpleSpace` result, sorted,
-  duplicates kept).
+  `q` may carry `own=<id>`: the searcher's `Validate` rejects that id (the owner, as
+  `searchers.FindPlayers` does); without it the searcher accepts everything.
+  Observation of a query: `z=<ids> b=<ids> s=<ids>` (sorted, duplicates kept): zoned result /
+  result of the `SimpleSpace` that is handed only the adds of ids that are not live (reference of
+  the zoned contract) / result of a second `SimpleSpace` that is handed EVERY op verbatim (its own
+  contract: an add of a live id moves it).  All three come from the model of the respective Go code.
 * float stream — `reset kind=f …`, `fadd|fmov|fdel|fq` with float32 bit patterns.
   Not modelled (the theorems are about exact arithmetic); the observation carries the
-  zoned result `z=`, the harness's brute-force scan `b=`, the ids whose distance is within
+  zoned result `z=`, the harness's brute-force scan `b=`, `SimpleSpace`'s result `s=` (same
+  float arithmetic as the scan: must equal `b=` exactly), the ids whose distance is within
   2 ulp of the radius or non-finite `e=`, and `nf=1` when the query itself is non-finite.
 
 `modeld_c20 model`  : op line in → observation out (float-stream ops → `-`).
@@ -40,8 +45,9 @@ def parsePos (ws : List String) : Option Pos := do
   let z ← kvInt ws "z"
   pure ⟨x, y, z⟩
 
-/-- geometry of a `reset kind=x` line; `none` = rejected by the harness without calling `Init` -/
-def parseGeo (ws : List String) : Option Geo := do
+/-- geometry of a `reset kind=x` line (`default` = the space made by `factory.CreateZoneSpace()`); `none` = rejected by the harness without calling `Init` -/
+def parseGeo (ws : List String) : Option Geo :=
+  if ws.contains "default" then some Geo.factory else do
   let bx ← kvInt ws "bx"
   let bz ← kvInt ws "bz"
   let ex ← kvInt ws "ex"
@@ -58,7 +64,18 @@ def isFloatOp (ws : List String) : Bool :=
 /-! ### mode `model` -/
 
 /-- `none` = no exact-stream space (before the first reset, float case, rejected geometry) -/
-abbrev MSt := Option Space
+structure MW where
+  zone : Space
+  fresh : Simple := {}   -- SimpleSpace handed only adds of ids that are not live
+  all : Simple := {}     -- SimpleSpace handed every op verbatim
+
+abbrev MSt := Option MW
+
+/-- the searcher's `Validate`: reject the owner when the query names one -/
+def validator (ws : List String) : Nat → Bool :=
+  match kvNat ws "own" with
+  | some o => fun id => id != o
+  | none => fun _ => true
 
 def modelStep (st : MSt) (line : String) : MSt × String :=
   let ws := words line
@@ -66,26 +83,30 @@ def modelStep (st : MSt) (line : String) : MSt × String :=
   else match ws.head? with
   | some "reset" =>
     match parseGeo ws with
-    | some g => (some (Space.init g), "ok")
+    | some g => (some { zone := Space.init g }, "ok")
     | none => (none, "bad-geo")
   | some "add" =>
     match st, kvNat ws "id", parsePos ws with
-    | some s, some id, some p => (some (s.add id p), "ok")
+    | some w, some id, some p =>
+      let fresh := if (w.zone.find id).isSome then w.fresh else w.fresh.add id p
+      (some { zone := w.zone.add id p, fresh := fresh, all := w.all.add id p }, "ok")
     | _, _, _ => (st, "bad-op")
   | some "mov" =>
     match st, kvNat ws "id", parsePos ws with
-    | some s, some id, some p =>
-      match s.mov id p with
-      | some s' => (some s', "ok")
+    | some w, some id, some p =>
+      match w.zone.mov id p with
+      | some z' => (some { zone := z', fresh := w.fresh.mov id p, all := w.all.mov id p }, "ok")
       | none => (st, "panic")
     | _, _, _ => (st, "bad-op")
   | some "del" =>
     match st, kvNat ws "id" with
-    | some s, some id => (some (s.del id), "ok")
+    | some w, some id => (some { zone := w.zone.del id, fresh := w.fresh.del id, all := w.all.del id }, "ok")
     | _, _ => (st, "bad-op")
   | some "q" =>
     match st, parsePos ws, kvInt ws "r" with
-    | some s, some p, some r => (st, s!"z={showIds (s.search p r)} b={showIds (s.positions.brute p r)}")
+    | some w, some p, some r =>
+      let v := validator ws
+      (st, s!"z={showIds (w.zone.searchV p r v)} b={showIds (w.fresh.searchV p r v)} s={showIds (w.all.searchV p r v)}")
     | _, _, _ => (st, "bad-op")
   | _ => (st, "bad-op")
 
@@ -102,7 +123,8 @@ def acceptStep (st : MSt) (line : String) : MSt × String :=
 /-! ### mode `spec`: the property predicate on implementation observations -/
 
 structure SSt where
-  ref : Ref := []          -- exact stream: id ↦ current position, plain map semantics
+  ref : Ref := []          -- exact stream: id ↦ current position, plain map semantics (zoned contract: add of a live id ignored)
+  refS : Ref := []         -- exact stream: the same under SimpleSpace's contract (add = upsert)
   live : List Nat := []    -- float stream: ids added and not deleted since
   geoOk : Bool := false
 
@@ -123,24 +145,26 @@ def specStep (st : SSt) (line : String) : SSt × String :=
     let ows := words obs
     if isPanic obs then (st, "VIOLATION C20/index-panic " ++ op)
     else match ws.head? with
-    | some "reset" => ({ ref := [], live := [], geoOk := obs == "ok" }, "ok")
+    | some "reset" => ({ ref := [], refS := [], live := [], geoOk := obs == "ok" }, "ok")
     | some "add" =>
       match kvNat ws "id", parsePos ws with
-      | some id, some p => ({ st with ref := st.ref.step (.add id p) }, "ok")
+      | some id, some p => ({ st with ref := st.ref.step (.add id p), refS := st.refS.stepS (.add id p) }, "ok")
       | _, _ => (st, "ok")
     | some "mov" =>
       match kvNat ws "id", parsePos ws with
-      | some id, some p => ({ st with ref := st.ref.step (.mov id p) }, "ok")
+      | some id, some p => ({ st with ref := st.ref.step (.mov id p), refS := st.refS.stepS (.mov id p) }, "ok")
       | _, _ => (st, "ok")
     | some "del" =>
       match kvNat ws "id" with
-      | some id => ({ st with ref := st.ref.step (.del id) }, "ok")
+      | some id => ({ st with ref := st.ref.step (.del id), refS := st.refS.stepS (.del id) }, "ok")
       | none => (st, "ok")
     | some "q" =>
       if !st.geoOk then (st, "ok") else
-      match parsePos ws, kvInt ws "r", (kv ows "z").bind parseIds, (kv ows "b").bind parseIds with
-      | some p, some r, some z, some b =>
-        let want := sortNat (st.ref.brute p r)
+      match parsePos ws, kvInt ws "r", (kv ows "z").bind parseIds, (kv ows "b").bind parseIds, (kv ows "s").bind parseIds with
+      | some p, some r, some z, some b, some sv =>
+        let v := validator ws
+        let want := sortNat ((st.ref.brute p r).filter v)
+        let wantS := sortNat ((st.refS.brute p r).filter v)
         if hasDup z then (st, s!"VIOLATION C20/duplicate-report zoned={showIds z} {op}")
         else if z.any (fun id => !st.ref.has id) then
           (st, s!"VIOLATION C20/removed-entity-reported zoned={showIds z} live={showIds (st.ref.map (·.1))} {op}")
@@ -148,8 +172,12 @@ def specStep (st : SSt) (line : String) : SSt × String :=
           (st, s!"VIOLATION C20/zoned-differs-from-bruteforce zoned={showIds z} within-range={showIds want} {op}")
         else if sortNat b != want then
           (st, s!"VIOLATION C20/simplespace-differs-from-scan simple={showIds b} within-range={showIds want} {op}")
+        else if sortNat sv != wantS then
+          (st, s!"VIOLATION C20/simplespace-differs-from-scan simple(every-add)={showIds sv} within-range={showIds wantS} {op}")
+        else if (z ++ b ++ sv).any (fun id => !v id) then
+          (st, s!"VIOLATION C20/rejected-candidate-reported zoned={showIds z} simple={showIds b},{showIds sv} {op}")
         else (st, "ok")
-      | _, _, _, _ => (st, "VIOLATION C20/unreadable-observation " ++ obs)
+      | _, _, _, _, _ => (st, "VIOLATION C20/unreadable-observation " ++ obs)
     | some "fadd" =>
       match kvNat ws "id" with
       | some id => ({ st with live := if st.live.contains id then st.live else id :: st.live }, "ok")
@@ -161,9 +189,14 @@ def specStep (st : SSt) (line : String) : SSt × String :=
     | some "fmov" => (st, "ok")
     | some "fq" =>
       if !st.geoOk then (st, "ok") else
-      match (kv ows "z").bind parseIds, (kv ows "b").bind parseIds, (kv ows "e").bind parseIds, kvNat ows "nf" with
-      | some z, some b, some e, some nf =>
-        if hasDup z then (st, s!"VIOLATION C20/duplicate-report zoned={showIds z} {op}")
+      match (kv ows "z").bind parseIds, (kv ows "b").bind parseIds, (kv ows "s").bind parseIds, (kv ows "e").bind parseIds, kvNat ows "nf" with
+      | some z, some b, some sv, some e, some nf =>
+        let v := validator ws
+        if (z ++ sv).any (fun id => !v id) then
+          (st, s!"VIOLATION C20/rejected-candidate-reported zoned={showIds z} simple={showIds sv} {op}")
+        else if sortNat sv != sortNat b then
+          (st, s!"VIOLATION C20/simplespace-differs-from-scan simple={showIds sv} scan={showIds b} {op}")
+        else if hasDup z then (st, s!"VIOLATION C20/duplicate-report zoned={showIds z} {op}")
         else if z.any (fun id => !st.live.contains id) then
           (st, s!"VIOLATION C20/removed-entity-reported zoned={showIds z} live={showIds st.live} {op}")
         else if nf == 1 then (st, "ok non-finite-query")
@@ -171,7 +204,7 @@ def specStep (st : SSt) (line : String) : SSt × String :=
           let bad := (symDiff z b).filter fun id => !e.contains id
           if bad.isEmpty then (st, "ok")
           else (st, s!"VIOLATION C20/zoned-differs-from-bruteforce zoned={showIds z} bruteforce={showIds b} unexcused={showIds bad} {op}")
-      | _, _, _, _ => (st, "VIOLATION C20/unreadable-observation " ++ obs)
+      | _, _, _, _, _ => (st, "VIOLATION C20/unreadable-observation " ++ obs)
     | _ => (st, "ok")
   | _ => (st, "bad-line")
 
